@@ -221,19 +221,21 @@ Definition RInv (max : nat) (m : list (N * N)) : Prop := NoDup (keys m) /\ (0 < 
 
 Lemma treg_inv max o m : RInv max m -> RInv max (snd (treg_apply max o m)).
 Proof.
-  intros [Hn Hc]. unfold treg_apply. destruct o as [id t|id].
+  intros [Hn Hc]. unfold treg_apply. destruct o as [id t|id|id cl].
   - destruct (N.eqb id 0); [split; assumption|].
     destruct (at_cap max (length m)) eqn:Ec; [split; assumption|]. cbn [snd]. split; [apply NoDup_keys_put, Hn|].
     intros Hm. apply at_cap_false in Ec. cbn [length]. pose proof (del_length_le m id). lia.
   - destruct (has m id); cbn [snd]; [|split; assumption]. split; [apply NoDup_keys_del, Hn|].
     intros Hm. pose proof (del_length_le m id). specialize (Hc Hm). lia.
+  - destruct (has m id); cbn [snd]; split; assumption.
 Qed.
 
 Lemma treg_refused_unchanged max o m : fst (treg_apply max o m) = RRefused -> snd (treg_apply max o m) = m.
 Proof.
-  unfold treg_apply. destruct o as [id t|id].
+  unfold treg_apply. destruct o as [id t|id|id cl].
   - destruct (N.eqb id 0); [reflexivity|]. destruct (at_cap max (length m)); [reflexivity|]. cbn. discriminate.
   - destruct (has m id); cbn; discriminate.
+  - destruct (has m id); reflexivity.
 Qed.
 
 (* below the limit a valid registration is never refused, and afterwards the id is registered *)
@@ -265,7 +267,7 @@ Proof. intros H Hin. apply has_true in Hin. congruence. Qed.
 
 Lemma creg_inv max o m : RInv max m -> RInv max (snd (creg_apply max o m)).
 Proof.
-  intros [Hn Hc]. unfold creg_apply. destruct o as [id t|id].
+  intros [Hn Hc]. unfold creg_apply. destruct o as [id t|id|id cl].
   - destruct (N.eqb id 0); [split; assumption|].
     destruct (has m id) eqn:Eh.
     + (* replacement: the count does not grow *)
@@ -282,6 +284,7 @@ Proof.
         intros Hm. apply at_cap_false in Ec. cbn [length]. lia.
   - destruct (has m id); cbn [snd]; [|split; assumption]. split; [apply NoDup_keys_del, Hn|].
     intros Hm. pose proof (del_length_le m id). specialize (Hc Hm). lia.
+  - destruct (has m id); cbn [snd]; split; assumption.
 Qed.
 
 (* the control cap never refuses a valid connection: a NEW id at the cap evicts an entry with the minimal CreatedAt *)
@@ -319,12 +322,40 @@ Qed.
 
 Lemma creg_refused_unchanged max o m : fst (creg_apply max o m) = RRefused -> snd (creg_apply max o m) = m.
 Proof.
-  unfold creg_apply. destruct o as [id t|id].
+  unfold creg_apply. destruct o as [id t|id|id cl].
   - destruct (N.eqb id 0); [reflexivity|]. destruct (has m id); [cbn; discriminate|].
     destruct (at_cap max (length m)).
     + destruct (oldest m); [cbn; discriminate|reflexivity].
     + cbn. discriminate.
   - destruct (has m id); cbn; discriminate.
+  - destruct (has m id); reflexivity.
+Qed.
+
+(* removal always takes the connection out of the map — whatever the client index points to *)
+Lemma del_not_in m id : ~ In id (keys (del m id)).
+Proof. intros H. apply keys_del in H. tauto. Qed.
+
+Lemma remove_conn_removes r id : ~ In id (keys (x_map (remove_conn false r id))) /\
+                                 x_map (remove_conn false r id) = del (x_map r) id.
+Proof.
+  unfold remove_conn. rewrite andb_false_r. cbn [x_map]. split; [apply del_not_in|reflexivity].
+Qed.
+
+(* ... and never touches an index entry that points to another connection *)
+Lemma remove_conn_keeps_foreign_index r id cl other :
+  lookup2 (x_ident r) id = cl -> has (x_index r) cl = true -> lookup2 (x_index r) cl = other -> other <> id ->
+  x_index (remove_conn false r id) = x_index r.
+Proof.
+  intros Hc Hh Ho Hne. unfold remove_conn. rewrite andb_false_r. cbn [x_index]. rewrite Hc, Hh, Ho.
+  destruct (N.eqb_spec other id) as [E|E]; [contradiction|]. rewrite andb_false_r. reflexivity.
+Qed.
+
+(* the flattened guard: client 7 authenticated on connection 1, then indexed under connection 2 — removing 1 removes nothing *)
+Lemma remove_conn_guarded_refuted :
+  exists r id, In id (keys (x_map (remove_conn true r id))) /\ length (x_map (remove_conn true r id)) = length (x_map r).
+Proof.
+  exists {| x_map := [(1, 10); (2, 20)]%N; x_ident := [(1, 7); (2, 7)]%N; x_index := [(7, 2)]%N |}, 1%N.
+  vm_compute. auto.
 Qed.
 
 Section Reg.
